@@ -134,6 +134,7 @@ Definition src_ok (past : list net) (e : event) : Prop :=
   match e with
   | Fetch _ _ => True
   | Deliver _ j adv => exists Sp rj, In Sp past /\ getr Sp j = Some rj /\ adv = advert (rrib rj)
+  | LateUpdate _ _ _ => True          (* late updates on deleted neighbour objects may occur anywhere *)
   | _ => False
   end.
 
@@ -283,7 +284,7 @@ Lemma xfer_level : forall r S past e, at_g S -> (forall Sp, In Sp past -> at_g S
   forall i j, E i j -> (P (r + 1) S i j \/ xfers (i, j) e = true) -> P (r + 1) S1 i j.
 Proof.
   intros r S past e Hat Hpast Hall Hsrc S1. subst S1.
-  destruct e as [a b | a b adv | | | |]; simpl in Hsrc; try contradiction.
+  destruct e as [a b | a b adv | a b adv | | | |]; simpl in Hsrc; try contradiction.
   - (* Fetch *)
     destruct (fetch_as_deliver S a b Hat) as [[Heq Hn] | (rj & Gj & Heq)]; rewrite Heq.
     + split; [exact Hat|]. split; [exact Hall|].
@@ -303,6 +304,9 @@ Proof.
     split; [exact A|]. split; [exact B|].
     intros i j He [H | H]; [apply C; auto|].
     simpl in H. unfold pair_eqb in H. simpl in H. apply C; [exact He|]. right. lia.
+  - (* LateUpdate: nothing happens *)
+    rewrite late_update_noop. simpl. split; [exact Hat|]. split; [exact Hall|].
+    intros i j He [H | H]; [exact H | discriminate].
 Qed.
 
 Lemma round_gen : forall r evs S past (done : node -> node -> Prop), at_g S ->
